@@ -1192,66 +1192,90 @@ Qed.
 (* examples                                                            *)
 (* ------------------------------------------------------------------ *)
 
-Definition fx_mk (au mu : bool) (rq ad rm : list nat) : sdef :=
-  {| s_auto := au; s_multi := mu; s_require := rq; s_add := ad; s_remove := rm; s_after := [] |}.
-Definition fx_sch : schema :=
-  [ fx_mk false false [] [1] []; fx_mk false true [] [] []; fx_mk true false [1] [] [0];
-    fx_mk false true [] [] [] ].
-Definition fx_bs : list (list hkey) :=
-  [[HEnter 0; HState 0; HState 1; HEnter 3; HState 3; HAnyState]].
-Definition fx_act (f : fault) : haction := {| ha_ret := true; ha_calls := []; ha_fault := f |}.
-Definition fx_call (k : api_kind) (l : list nat) : api_call :=
-  {| ac_kind := k; ac_states := l; ac_args := false |}.
-Definition fx_cs : list api_call :=
-  [ fx_call KAdd [0]; fx_call KRemove [0; 1; 3]; fx_call KAdd [0]; fx_call KRemove [3];
-    fx_call KAdd [1]; fx_call KAdd [0] ].
 (* panics in Enter 0 (negotiation), Enter 3 = ExceptionEnter (inside the
-   Exception transition) and State 0 (final handler) *)
-Definition fx_acts : list haction :=
-  [fx_act FPanic; fx_act FPanic; fx_act FNone; fx_act FNone; fx_act FPanic].
-(* ... and a stall in the AnyState handler of the later Remove[Exception] *)
-Definition fx_acts_stall : list haction :=
-  fx_acts ++ [fx_act FNone; fx_act FNone; fx_act FNone; fx_act FStall].
-Definition fx_tr (acts : list haction) : trace :=
-  run 100 (init_st fx_sch (topo_sort fx_sch [0; 1; 2; 3]) [] 3 fx_bs 1000 acts) fx_cs.
-
+   Exception transition) and State 0 (final handler); in the second script
+   also a stall in the AnyState handler of the later Remove[Exception] *)
+(* stated with every definition inlined, as Props/C14.v restates them *)
 Lemma brackets_run_faults_nonvacuous_lemma :
-  let tr := fx_tr fx_acts in
-  panic_only fx_acts /\ tr_crashed tr = false /\
+  let mk := fun (au mu : bool) (rq ad rm : list nat) =>
+    {| s_auto := au; s_multi := mu; s_require := rq; s_add := ad; s_remove := rm; s_after := [] |} in
+  let sch := [ mk false false [] [1] []; mk false true [] [] []; mk true false [1] [] [0];
+               mk false true [] [] [] ] in
+  let bs := [[HEnter 0; HState 0; HState 1; HEnter 3; HState 3; HAnyState]] in
+  let act := fun f => {| ha_ret := true; ha_calls := []; ha_fault := f |} in
+  let call := fun k l => {| ac_kind := k; ac_states := l; ac_args := false |} in
+  let cs := [ call KAdd [0]; call KRemove [0; 1; 3]; call KAdd [0]; call KRemove [3];
+              call KAdd [1]; call KAdd [0] ] in
+  let acts := [act FPanic; act FPanic; act FNone; act FNone; act FPanic] in
+  let tr := run 100 (init_st sch (topo_sort sch [0; 1; 2; 3]) [] 3 bs 1000 acts) cs in
+  forallb (fun a => match ha_fault a with FStall => false | _ => true end) acts = true /\
+  tr_crashed tr = false /\
   map hl_key (firstn 5 (tr_hlog tr)) = [HEnter 0; HEnter 3; HAnyState; HEnter 0; HState 0] /\
   map tx_called (tr_txs tr) = [[0]; [3]; [0; 1; 3]; [0]; [3]; [2]; [3]; [2]; [1]; [2]; [0]] /\
-  map (tx_faulted fx_acts) (tr_txs tr)
+  map (tx_faulted acts) (tr_txs tr)
   = [true; true; false; true; false; false; false; false; false; false; false] /\
   brackets BIdle (tr_evs tr) []
   = Some [false; false; true; true; true; false; true; false; true; true; false].
 Proof. vm_compute. repeat split; reflexivity. Qed.
 
 Lemma brackets_run_any_faults_nonvacuous_lemma :
-  let tr := fx_tr fx_acts_stall in
+  let mk := fun (au mu : bool) (rq ad rm : list nat) =>
+    {| s_auto := au; s_multi := mu; s_require := rq; s_add := ad; s_remove := rm; s_after := [] |} in
+  let sch := [ mk false false [] [1] []; mk false true [] [] []; mk true false [1] [] [0];
+               mk false true [] [] [] ] in
+  let bs := [[HEnter 0; HState 0; HState 1; HEnter 3; HState 3; HAnyState]] in
+  let act := fun f => {| ha_ret := true; ha_calls := []; ha_fault := f |} in
+  let call := fun k l => {| ac_kind := k; ac_states := l; ac_args := false |} in
+  let cs := [ call KAdd [0]; call KRemove [0; 1; 3]; call KAdd [0]; call KRemove [3];
+              call KAdd [1]; call KAdd [0] ] in
+  let acts := [act FPanic; act FPanic; act FNone; act FNone; act FPanic;
+               act FNone; act FNone; act FNone; act FStall] in
+  let tr := run 100 (init_st sch (topo_sort sch [0; 1; 2; 3]) [] 3 bs 1000 acts) cs in
   tr_crashed tr = false /\
   map hl_key (firstn 9 (tr_hlog tr))
   = [HEnter 0; HEnter 3; HAnyState; HEnter 0; HState 0; HEnter 3; HState 3; HAnyState; HAnyState] /\
-  map (tx_faulted fx_acts_stall) (tr_txs tr)
+  map (tx_faulted acts) (tr_txs tr)
   = [true; true; false; true; false; false; true; false; false; false] /\
   brackets BIdle (tr_evs tr) []
   = Some [false; false; true; true; true; false; true; true; true; false].
 Proof. vm_compute. repeat split; reflexivity. Qed.
 
-(* the plain predicate c14_codes does flag this run: the exemption of the
-   faulted transitions is what makes the statement true *)
 Lemma c14f_codes_run_faults_nonvacuous_lemma :
-  let tr := fx_tr fx_acts in
-  panic_only fx_acts /\ tr_crashed tr = false /\ tr_fuel_ok tr = true /\
+  let mk := fun (au mu : bool) (rq ad rm : list nat) =>
+    {| s_auto := au; s_multi := mu; s_require := rq; s_add := ad; s_remove := rm; s_after := [] |} in
+  let sch := [ mk false false [] [1] []; mk false true [] [] []; mk true false [1] [] [0];
+               mk false true [] [] [] ] in
+  let bs := [[HEnter 0; HState 0; HState 1; HEnter 3; HState 3; HAnyState]] in
+  let act := fun f => {| ha_ret := true; ha_calls := []; ha_fault := f |} in
+  let call := fun k l => {| ac_kind := k; ac_states := l; ac_args := false |} in
+  let cs := [ call KAdd [0]; call KRemove [0; 1; 3]; call KAdd [0]; call KRemove [3];
+              call KAdd [1]; call KAdd [0] ] in
+  let acts := [act FPanic; act FPanic; act FNone; act FNone; act FPanic] in
+  let tr := run 100 (init_st sch (topo_sort sch [0; 1; 2; 3]) [] 3 bs 1000 acts) cs in
+  forallb (fun a => match ha_fault a with FStall => false | _ => true end) acts = true /\
+  tr_crashed tr = false /\ tr_fuel_ok tr = true /\
   length (tr_txs tr) = 11 /\ length (tr_calls tr) = 6 /\
-  existsb (tx_faulted fx_acts) (tr_txs tr) = true /\
+  existsb (tx_faulted acts) (tr_txs tr) = true /\
   c14_codes tr [] = [143; 144; 145; 146]%N /\
-  c14f_codes fx_acts tr [] = [].
+  c14f_codes acts tr [] = [].
 Proof. vm_compute. repeat split; reflexivity. Qed.
 
 Lemma c14f_codes_run_any_faults_nonvacuous_lemma :
-  let tr := fx_tr fx_acts_stall in
+  let mk := fun (au mu : bool) (rq ad rm : list nat) =>
+    {| s_auto := au; s_multi := mu; s_require := rq; s_add := ad; s_remove := rm; s_after := [] |} in
+  let sch := [ mk false false [] [1] []; mk false true [] [] []; mk true false [1] [] [0];
+               mk false true [] [] [] ] in
+  let bs := [[HEnter 0; HState 0; HState 1; HEnter 3; HState 3; HAnyState]] in
+  let act := fun f => {| ha_ret := true; ha_calls := []; ha_fault := f |} in
+  let call := fun k l => {| ac_kind := k; ac_states := l; ac_args := false |} in
+  let cs := [ call KAdd [0]; call KRemove [0; 1; 3]; call KAdd [0]; call KRemove [3];
+              call KAdd [1]; call KAdd [0] ] in
+  let acts := [act FPanic; act FPanic; act FNone; act FNone; act FPanic;
+               act FNone; act FNone; act FNone; act FStall] in
+  let tr := run 100 (init_st sch (topo_sort sch [0; 1; 2; 3]) [] 3 bs 1000 acts) cs in
   tr_fuel_ok tr = true /\ length (tr_txs tr) = 10 /\
-  length (filter (tx_faulted fx_acts_stall) (tr_txs tr)) = 4 /\
+  length (filter (tx_faulted acts) (tr_txs tr)) = 4 /\
   c14_codes tr [] = [143; 144; 145; 146]%N /\
-  c14f_codes fx_acts_stall tr [] = [].
+  c14f_codes acts tr [] = [].
 Proof. vm_compute. repeat split; reflexivity. Qed.
+
